@@ -275,6 +275,7 @@ class ModuleInfo:
     functions: Dict[str, FunctionInfo] = field(default_factory=dict)
     assigns: Dict[str, ast.expr] = field(default_factory=dict)
     sub_assigns: Dict[str, list] = field(default_factory=dict)   # module-level ``NAME[key] = value`` after the definition, in order
+    rebound: set = field(default_factory=set)   # module-level names that are STATE: declared ``global`` in a function, or changed in place by one
 
     @property
     def short(self) -> str:
@@ -384,6 +385,32 @@ class Model:
             if is_main_guard(stmt):
                 continue
             self._scan_stmt(m, stmt, is_pkg)
+        # module-level names that functions rebind or change in place are state, not constants
+        mutators = {"append", "extend", "insert", "remove", "pop", "clear", "update", "add", "discard", "setdefault", "popitem", "sort", "reverse"}
+        for fn in ast.walk(m.tree):
+            if not isinstance(fn, (ast.FunctionDef, ast.AsyncFunctionDef)):
+                continue
+            local = {a.arg for a in fn.args.args + fn.args.kwonlyargs + fn.args.posonlyargs}
+            globs = set()
+            for n in ast.walk(fn):
+                if isinstance(n, ast.Global):
+                    globs.update(n.names)
+                elif isinstance(n, (ast.Assign, ast.AnnAssign, ast.For, ast.withitem, ast.comprehension, ast.NamedExpr)):
+                    tg = getattr(n, "targets", None) or [getattr(n, "target", None) or getattr(n, "optional_vars", None)]
+                    for t in tg:
+                        if t is not None:
+                            local.update(x.id for x in ast.walk(t) if isinstance(x, ast.Name) and isinstance(x.ctx, ast.Store))
+            m.rebound.update(g for g in globs if g in m.assigns)
+            for n in ast.walk(fn):
+                nm = None
+                if isinstance(n, ast.Call) and isinstance(n.func, ast.Attribute) and n.func.attr in mutators and isinstance(n.func.value, ast.Name):
+                    nm = n.func.value.id
+                elif isinstance(n, (ast.Assign, ast.AugAssign, ast.Delete)):
+                    for t in (n.targets if isinstance(n, (ast.Assign, ast.Delete)) else [n.target]):
+                        if isinstance(t, ast.Subscript) and isinstance(t.value, ast.Name):
+                            nm = t.value.id
+                if nm is not None and nm in m.assigns and (nm not in local or nm in globs):
+                    m.rebound.add(nm)
 
     def _scan_stmt(self, m: ModuleInfo, stmt: ast.stmt, is_pkg: bool):
         if isinstance(stmt, ast.Import):
